@@ -344,6 +344,8 @@ class BeckeWeights:
         # to counteract the scaling of the memory usage of the
         # vectorized implementation of the Becke partitioning.
         npoints = points.shape[0]
+        if npoints == 0:
+            return np.zeros(0)
         # the shifted table (indices - ibegin) must be able to go negative before it is clipped
         indices = np.asarray(indices, dtype=np.int64)
         chunk_size = max(1, (10 * npoints) // atcoords.shape[0] ** 2)
